@@ -234,6 +234,70 @@ theorem cbt_gives_ggsw_noise_executed (p : Par) (L : Nat) (hok : BrOk p L) (hN2 
   rw [totalRot_eq] at h
   exact h
 
+/-! ## `execute_standard`: the per-step product on the UN-NORMALISED accumulator, in the ring -/
+
+/-- **`std_product_executed`** — the product `glwe_external_product(acc_tmp, out, BRK_i)` of one step of `execute_standard` in ring form, for an
+accumulator `out` that is NOT normalised (digits `≤ H`, any `H` with head-room — `execute_standard` sums `n_lwe` products before its single
+`glwe_normalize_assign`): it returns a normalised `acc_tmp` (well-formed, digits `≤ 2^b − 1`) and, at the scale `2^(b·rs+b·S)` modulo `2^(2·b·rs+b·S)`,
+`ν(phase(acc_tmp) − s_i·phase(out)) ≤ EpCoeff.epErrBound` — `EpCoeff.ep_coeff` read in `ℤ[X]/(X^N+1)` with the measure of the block machine.  (The
+composition over the steps is not written: the invariant is indexed by the step, see docs/C14.md.) -/
+theorem std_product_executed (p : Par) (H : Int) (hN : 0 < p.N) (hb1 : 1 ≤ p.b) (hb : p.b ≤ 62) (hd1 : 1 ≤ p.dsize) (hd2 : p.dsize ≤ 2)
+    (hS : p.dnum * p.dsize ≤ p.S) (hc1 : epConvSize p.rs p.b p.b ≤ p.S) (hc2 : epConvSize p.rs p.b p.b ≤ p.dnum * p.dsize)
+    (hsk : p.rank ≤ p.sk.length) (hDm : 0 ≤ p.Dm) (hH0 : 0 ≤ H) (hH : H + 8 ≤ 2 ^ 62)
+    (hadm : Core.prodAdmissible (KsDec.bitsOf p.big128) p.dsize (p.rank + 1) p.dnum p.N H p.Dm 0)
+    (out : List Col) (hsh : shapeOk p.N (p.rank + 1) p.rs out = true) (hdig : ∀ c ∈ out, ∀ l ∈ c, ∀ y ∈ l, |y| ≤ H)
+    (x : GBit p.N) (hx : Good p x) :
+    ∃ acc, glweExternalProduct p.big128 p.N p.b p.rs out p.b x.g = .ok acc ∧ C02L.GWF p.N (Ks.mkCt p.b p.N acc) ∧
+      (∀ c ∈ acc, ∀ l ∈ c, ∀ y ∈ l, |y| ≤ p.Hin) ∧
+      RingNu.nu (2 ^ (p.b * p.rs + p.b * p.rs + p.b * p.S)) p.N
+          ((((2 : Int) ^ (p.b * p.rs + p.b * p.S) : Int) : Ks.R p.N) * Ks.ι p.N (C02L.valP p.b p.N (Core.Ops.phase p.sk (Ks.mkCt p.b p.N acc)))
+            - (((2 : Int) ^ (p.b * p.rs + p.b * p.S) * (if x.bit then 1 else 0) : Int) : Ks.R p.N)
+                * Ks.ι p.N (C02L.valP p.b p.N (Core.Ops.phase p.sk (Ks.mkCt p.b p.N out))))
+        ≤ EpCoeff.epErrBound p.N p.b p.rs p.b p.rs x.g p.sk H p.BE := by
+  obtain ⟨hgn, hgw, hgb, hgr, hgdn, hgds, hgS, hgd, hEL, hBEL, hM, hkey⟩ := hx
+  have h0 : (out.getD 0 []).length = p.rs := BlindExec.wf_of_shapeOk' _ _ _ _ hsh 0 (Nat.succ_pos _)
+  obtain ⟨res, hres, hgwf, hdg, hcoef⟩ := EpCoeff.ep_coeff (N := p.N) p.big128 p.b p.rs p.b out x.g p.sk x.bit H H p.Dm p.BE
+    (by rw [hgn, hgw, hgr, h0, hsh]; simp) hb1 hb hb1 hb (by rw [hgb]; exact hb1) (by rw [hgb]; exact hb) hH0 hH hdig
+    (by rw [hgb]; simp) hDm (by rw [hgds, hgr, hgdn]; exact hadm) hgd p.σ x.EL x.K hEL hBEL (by rw [hgds]; exact hd1) (by rw [hgds]; exact hd2)
+    hN hgn hM (by rw [hgdn, hgds, hgS]; exact hS)
+    (by intro i hi r hr
+        have := hkey i (by rw [← hgr]; exact hi) r (by rw [← hgdn]; exact hr)
+        rw [hgb, hgS, hgds, this]; cases x.bit <;> simp)
+    (by rw [h0, hgb, hgS]; exact hc1) (by rw [h0, hgb, hgdn, hgds]; exact hc2) (by rw [hgr]; exact hsk)
+    (by simp [Par.σ]) (by intro i _; simp [Par.σ])
+  rw [h0, hgb, hgS] at hcoef
+  refine ⟨res, hres, hgwf, fun c hc l hl y hy => by unfold Par.Hin; exact hdg c hc l hl y hy, ?_⟩
+  have hB : 0 ≤ EpCoeff.epErrBound p.N p.b p.rs p.b p.rs x.g p.sk H p.BE := by
+    obtain ⟨e, q, _, he⟩ := hcoef 0 hN
+    exact le_trans (abs_nonneg e) he
+  set VR := C02L.valP p.b p.N (Core.Ops.phase p.sk (Ks.mkCt p.b p.N res)) with hVR
+  set VO := C02L.valP p.b p.N (Core.Ops.phase p.sk (Ks.mkCt p.b p.N out)) with hVO
+  have hlR : VR.length = p.N := C02L.valP_length _ _ _
+  have hlO : VO.length = p.N := C02L.valP_length _ _ _
+  have hx : (((2 : Int) ^ (p.b * p.rs + p.b * p.S) : Int) : Ks.R p.N) * Ks.ι p.N VR
+        - (((2 : Int) ^ (p.b * p.rs + p.b * p.S) * (if x.bit then 1 else 0) : Int) : Ks.R p.N) * Ks.ι p.N VO
+      = Ks.ι p.N (Hal.polyAdd (Hal.polyScale (2 ^ (p.b * p.rs + p.b * p.S)) VR)
+          (Hal.polyScale (-((2 : Int) ^ (p.b * p.rs + p.b * p.S) * (if x.bit then 1 else 0))) VO)) := by
+    rw [Ks.ι_add p.N _ _ (by simp [Hal.polyScale, hlR, hlO]), Ks.ι_polyScale, Ks.ι_polyScale]
+    push_cast; ring
+  rw [hx]
+  apply RingNu.nu_le_of_coef hN _ _ hB
+  intro k hk
+  rw [RingNu.coefL_ι hN _ (by simp [Hal.polyAdd, Hal.polyScale, hlR, hlO]),
+    RingNu.getD_polyAdd' _ _ (by simp [Hal.polyScale, hlR, hlO]), RingNu.getD_polyScale', RingNu.getD_polyScale']
+  obtain ⟨e, q, heq, he⟩ := hcoef k hk
+  have hvR : VR.getD k 0 = Core.valCoeff p.b (Core.Ops.phase p.sk (Ks.mkCt p.b p.N res)) k := by
+    simp [hVR, C02L.valP, List.getD_eq_getElem?_getD, List.getElem?_map, List.getElem?_range hk]
+  have hvO : VO.getD k 0 = Core.valCoeff p.b (Core.Ops.phase p.sk (Ks.mkCt p.b p.N out)) k := by
+    simp [hVO, C02L.valP, List.getD_eq_getElem?_getD, List.getElem?_map, List.getElem?_range hk]
+  rw [hvR, hvO]
+  have : 2 ^ (p.b * p.rs + p.b * p.S) * Core.valCoeff p.b (Core.Ops.phase p.sk (Ks.mkCt p.b p.N res)) k
+      + -(2 ^ (p.b * p.rs + p.b * p.S) * (if x.bit then 1 else 0)) * Core.valCoeff p.b (Core.Ops.phase p.sk (Ks.mkCt p.b p.N out)) k
+      = e + ((2 ^ (p.b * p.rs + p.b * p.rs + p.b * p.S) : ℕ) : Int) * q := by
+    push_cast; linarith
+  rw [this, Int.add_mul_bmod_self_left]
+  exact le_trans (RingNu.abs_bmod_le _ _) he
+
 /-! ## Non-vacuity -/
 
 /-- the numeric side conditions hold at the parameters of the crate's blind-rotation test (`N = 2048`, radix `19`, rank `1`, two rows, three
@@ -319,5 +383,12 @@ example : ∃ res, bbLoop toyP.big128 toyP.N toyP.b toyP.rs toyP.S (toyP.rank + 
     (by intro blk hb; simp at hb; rcases hb with rfl | rfl
         · exact Or.inr ⟨[], [], by simp [toyG], by simp, by simp⟩
         · exact Or.inl (by simp [toyG]))
+
+/-- `std_product_executed` is not vacuous: the product of the toy accumulator by the toy key element returns -/
+example : ∃ acc, glweExternalProduct toyP.big128 toyP.N toyP.b toyP.rs [[[3]]] toyP.b (toyG true).g = .ok acc :=
+  let ⟨a, h, _⟩ := std_product_executed toyP 3 (by decide) (by decide) (by decide) (by decide) (by decide) (by decide) (by decide) (by decide)
+    (by decide) (by decide) (by decide) (by decide) (by decide) [[[3]]] (by decide)
+    (fun c hc l hl y hy => by have := toyAcc_wf.2 c hc l hl y hy; simpa [Par.Hin, toyP] using this) (toyG true) (toyG_good true)
+  ⟨a, h⟩
 
 end C14Exec
